@@ -290,3 +290,21 @@ pub fn arith_script(data: &[u8], ops: &[ArithOp]) -> (Vec<i32>, bool) {
     let eof = d.check(res, ()).is_err();
     (out, eof)
 }
+
+/// `encoder::build_huffman_tree(frequencies, lengths, codes, length_limit)` on fresh output arrays:
+/// returns (flag, lengths, codes)
+pub fn build_huffman_tree(frequencies: &[u32], length_limit: u8) -> (bool, Vec<u8>, Vec<u16>) {
+    crate::encoder::verif_build_huffman_tree(frequencies, length_limit)
+}
+
+/// `encoder::encode_frame` (the VP8L payload alone) on a caller-supplied writer
+pub fn encode_frame<W: std::io::Write>(
+    writer: W,
+    data: &[u8],
+    width: u32,
+    height: u32,
+    color: crate::ColorType,
+    use_predictor_transform: bool,
+) -> Result<(), crate::EncodingError> {
+    crate::encoder::verif_encode_frame(writer, data, width, height, color, use_predictor_transform)
+}
